@@ -71,17 +71,23 @@ def gen_history(r):
     """a configuration and a population history long enough for max_cycles cycles"""
     mc = r.choice([1, 1, 2, 3, 4, 5, 6, 8, 12])
     P = r.choice([1, 2, 3, 3, 4, 6])
-    pattern = r.choice(["slow", "plateau", "noisy", "up", "hit", "hit"])
+    pattern = r.choice(["slow", "plateau", "noisy", "up", "hit", "hit", "nan-after-decrease"])
     f = r.uniform(0.2, 0.7)
     nanfit = r.random() < 0.07
+    if pattern == "nan-after-decrease":
+        # small decreases of the rate, then a generation with a NaN fitness (rate NaN, change NaN), then more small decreases: a NaN change is NOT a small decrease,
+        # wherever it sits in the patience window (builtin min / max skip a NaN that is not their first argument)
+        mc = r.choice([4, 5, 6, 8]); P = r.choice([2, 3, 4])
     gens = []
     for g in range(mc + 1):
-        if pattern == "slow": f = f + (1 - f) * r.uniform(0.001, 0.2)
+        if pattern == "nan-after-decrease": f = f + (1 - f) * r.uniform(0.001, 0.01)
+        elif pattern == "slow": f = f + (1 - f) * r.uniform(0.001, 0.2)
         elif pattern == "plateau": f = f + (r.choice([0.0, 0.0, 1e-6, 1e-3]) if g % 3 else (1 - f) * 0.3)
         elif pattern == "noisy": f = min(1.5, max(0.01, f + r.uniform(-0.1, 0.15)))
         elif pattern == "up": f = max(0.01, f - r.uniform(0.0, 0.05))
         else: f = r.choice([1.0, 0.999, 0.95, f, 1.0 + 1e-9])
         fits = [f] * P if r.random() < (0.5 if pattern != "hit" else 0.8) else [min(2.0, max(1e-3, f + r.uniform(-0.05, 0.05))) for _ in range(P)]
+        if pattern == "nan-after-decrease" and g >= 2 and g % 3 == 0: fits[r.randrange(P)] = float("nan")
         if nanfit and P >= 2 and r.random() < 0.6:      # an agent whose fitness is not a number (objective undefined there): the mean, hence the rate, is NaN
             fits[r.randrange(P)] = float("nan")
         alphabet = COSTS if r.random() < 0.7 else [r.uniform(-5, 5) for _ in range(3)]
@@ -100,7 +106,10 @@ def gen_history(r):
     if any(x == 0.0 for x in rates) and r.random() < 0.6:
         fe = r.choice([0.0, 0.0, -0.0])          # a zero tolerance IS a configured tolerance: a rate of exactly 0 (every agent at fitness 1) meets it
     early = None
-    if r.random() < 0.55:
+    if pattern == "nan-after-decrease":
+        fe = None
+        early = (r.choice([2, 2, 3]), r.choice([0.05, 0.1, float("inf")]))
+    elif r.random() < 0.55:
         md = abs(r.choice(finite(diffs)))
         md = r.choice([md, float(np.nextafter(md, np.inf)), float(np.nextafter(md, 0.0)), md * 2, 1e-4, 0.02, 0.0, 0.0, -0.0, float("inf")])
         early = (r.choice([1, 1, 2, 3, 4]), md)
